@@ -252,7 +252,8 @@ def time_shift(z, /, shift, crop=False):
     if isinstance(shift, u.Quantity):
         shift = (shift * z.sample_rate).to_value(u.one)
 
-    shift = np.array(shift)
+    # In double precision: the phase ramp below multiplies the shift by 2 pi f.
+    shift = np.array(shift, dtype=np.float64)
 
     if shift.ndim >= z.ndim:
         raise ValueError(
